@@ -56,6 +56,10 @@ pub struct Case {
     /// (the caller's thread blocks until the action has returned), so the choice of who
     /// runs is the schedule's and the execution stays a pure function of the case.
     pub thread_seed: Option<u64>,
+    /// F28: other tests that the same OS thread(s) ran to completion before this one (a
+    /// worker that runs one test after the other). Their results are not judged; they are
+    /// part of the history this run starts from.
+    pub prelude: Vec<Case>,
 }
 
 impl Case {
@@ -130,6 +134,7 @@ impl Case {
                     None => J::Null,
                 },
             )
+            .set("prelude", J::arr(&self.prelude, |c| c.to_json()))
             .set("max_steps", J::u(self.max_steps))
             .set("continue_after_error", J::Bool(self.continue_after_error))
             .set(
@@ -196,6 +201,14 @@ impl Case {
             continue_after_error: match j.get("continue_after_error") {
                 Some(b) => b.as_bool()?,
                 None => false,
+            },
+            prelude: match j.get("prelude") {
+                Some(a @ J::Arr(_)) => a
+                    .as_arr()?
+                    .iter()
+                    .map(Case::from_json)
+                    .collect::<Result<Vec<_>, String>>()?,
+                _ => vec![],
             },
             thread_seed: match j.get("thread_seed") {
                 Some(J::Null) | None => None,
